@@ -100,6 +100,52 @@ def run(res):
         for _ in range(rng.choice([1, 2, 3])):
             group.append([v for v in rng.choice(orders) if v in names])
         hs.extend(history_group(rng, group, rng.choice([20, 40, 60])))
+    # scale: thousands of live nodes over 13-16 variables; literals and cubes requested again must be the same roots
+    from pyModelChecking.BDD import OBDD
+    import gc as _gc
+    big_roots = 0
+    for rounds in range(1 if quick else 3):
+        nv = rng.choice([13, 14, 16])
+        order = ['v%d' % i for i in range(nv)]
+        rng.shuffle(order)
+        keep = {}
+        exprs = []
+        # every positive cube and clause over <= 5 of the first 12 variables (1585 each: that many distinct nodes hang
+        # off each terminal), plus random signed ones; the last variables stay unused until the literal test below
+        aux = order[:12]
+        for k in range(1, 6):
+            for sub in itertools.combinations(aux, k):
+                exprs.append(' & '.join(sub))
+                exprs.append(' | '.join(sub))
+        for i in range(400 if quick else 3000):
+            lits = rng.sample(aux, rng.choice([2, 3, 4]))
+            signs = [rng.random() < 0.5 for _ in lits]
+            op = ' & ' if i % 2 else ' | '
+            exprs.append(op.join(('~' if s else '') + l for l, s in zip(lits, signs)))
+        for e in exprs:
+            keep[e] = OBDD(e, list(order))
+        big_roots += len(keep)
+        problems16 = []
+        for v in order:
+            a, b = OBDD(v, list(order)), OBDD(v, list(order))
+            if a.root is not b.root or not (a == b):
+                problems16.append('the literal %s parsed twice gives two different roots' % v)
+            c = OBDD('~(~%s)' % v, list(order))
+            if c.root is not a.root:
+                problems16.append('~~%s is not the node of %s' % (v, v))
+        for e in rng.sample(exprs, 300):
+            again = OBDD(e, list(order))
+            if again.root is not keep[e].root:
+                problems16.append('%r parsed again gives another root' % e)
+        live = B.live_nonterminals()
+        d = B.duplicate_triples(live)
+        if d:
+            problems16.append('%d duplicate (var, low, high) triples among %d live nodes' % (len(d), len(live)))
+        for pmsg in problems16[:3]:
+            res.violation('C16 at scale (%d variables, %d live OBDDs, %d live nodes): %s' % (nv, len(keep), len(live), pmsg),
+                          {'ordering': order, 'expressions': exprs[:20], 'n_expressions': len(exprs)})
+        keep.clear()
+        _gc.collect()
     st = B.run_histories(res, hs, 'C16')
     problems = proof_coverage(res, THEOREMS, MODULES)
     for p in problems:
@@ -112,6 +158,6 @@ def run(res):
                 'same time and advanced in turns for 20-60 steps (parse/lambda-parse — half of the time re-parsing the '
                 'text another live history has just parsed —, &, |, ^, ~, restrict, drop, ==), live-node scan before and '
                 'after; distinct_nontrivial = distinct histories',
-        'pairs_compared_identity_vs_function': pairs,
+        'pairs_compared_identity_vs_function': pairs, 'roots_alive_in_the_large_population': big_roots,
         'traces_validated_against_impl': len(hs),
     })
